@@ -9,6 +9,7 @@ from lib import framework as fw
 from props import walk_common as wc
 from props import xargs_common as xc
 from props import names_common as nc
+from props import known_common as kc
 
 RULE = ("(list of starting points or -files0-from file) cases: 1-4 points drawn from existing trees in 9 spellings, missing paths, duplicates; files0 lists "
         "with hostile names, empty names, optional final NUL; default '.'; non-trivial = distinct case with at least two starting points or a files0 list")
@@ -124,6 +125,8 @@ def run(ctx):
             ok = ok_model and out == exp_out and (code != 0) == exp_err and (bool(err) == (exp_err or c["diag"]))
             if not ok:
                 bad.append((c, code, out, err, exp_out, exp_err, ok_model))
+        kc.argv_not_utf8_find(ctx, "C18", forest.dir, "starting-point")
+        kc.files0_not_utf8(ctx, "C18", forest.dir)
         ctx.sample({"kind": cases[0]["kind"], "args": [a.decode("utf-8", "replace") for a in cases[0]["args"]]})
         for c, code, out, err, exp_out, exp_err, ok_model in bad[:3]:
             ctx.violation("find %s%s: exit %s, output %r; expected %s %r%s"
